@@ -604,8 +604,8 @@ func c07Frontier(c *Ctx, rule string) {
 		c.Guard(rule, fn, CallTo{p + "ChannelLog.publishAppendLocked"}, commitOK)
 		c.Guard(rule, fn, RetNot{0, []string{"zero:AppendResult"}}, commitOK)
 	}
-	c.CallShape(rule, c.Fn(p+"ChannelLog.Append"), p+"ChannelLog.publishAppendLocked", "*(l, "+p+"ChannelLog.prepareAndStageAppendLocked(*)#0)", "*(l, result)")
-	c.CallShape(rule, c.Fn(p+"ChannelLog.ApplyFetch"), p+"ChannelLog.publishAppendLocked", "*(l, "+p+"ChannelLog.prepareAppendRowsLocked(*)#1)", "*(l, result)")
+	c.CallShape(rule, c.Fn(p+"ChannelLog.Append"), p+"ChannelLog.publishAppendLocked", "*(l, "+p+"ChannelLog.prepareAndStageAppendLocked(*)#0)", "*(l, *)")
+	c.CallShape(rule, c.Fn(p+"ChannelLog.ApplyFetch"), p+"ChannelLog.publishAppendLocked", "*(l, "+p+"ChannelLog.prepareAppendRowsLocked(*)#1)", "*(l, *)")
 	// commit owner: Publish closure is the only caller, and Publish runs only after the physical commit
 	c.ConfineCalls(rule, p+"channelEntry.publishCommittedRows", 1, p+"commitPreparedRowsBatchResult")
 	cpr := c.Fn(p + "commitPreparedRowsBatchResult")
